@@ -19,8 +19,19 @@ def Fconc(f, xs):
     return (f * 1000003 + a) % MOD
 
 
+HANG_TIMEOUT = 40
+
+
 class InjectedFault(Exception):
     pass
+
+
+class WorldLost(Exception):
+    """the world's run hung (threads still alive): the world cannot be used any further"""
+
+
+class InjectedHardFault(BaseException):
+    """a cut that is not an Exception (SystemExit-like)"""
 
 
 class World:
@@ -33,6 +44,8 @@ class World:
         self.clock = 0
         self.log = []            # (kind, id, extra) in global order
         self.fault_at = None     # inject InjectedFault at the k-th operation
+        self.fault_hard = False
+        self.fault_fired = False
         self.opcount = 0
         self.normalising = normalising
         self.slow_writes = 0
@@ -86,6 +99,9 @@ class World:
             k = self.opcount
             self.log.append((kind, ident, extra))
         if self.fault_at is not None and k == self.fault_at:
+            self.fault_fired = True
+            if self.fault_hard:
+                raise InjectedHardFault("hard fault at operation %d (%s %s)" % (k, kind, ident))
             raise InjectedFault("fault at operation %d (%s %s)" % (k, kind, ident))
 
     def set_store(self, sid, v):
@@ -274,10 +290,31 @@ class World:
     def fresh_dt(self, fresh):
         return None if fresh is None else EPOCH + dt.timedelta(seconds=fresh)
 
-    def run(self, output, fresh, workers=None, scheduler=None, max_errors=0, dry_run=False, fault_at=None, transform=None):
+    def run(self, output, fresh, workers=None, scheduler=None, max_errors=0, dry_run=False, fault_at=None, transform=None, fault_hard=False, _hard=False):
         self.log = []
         self.opcount = 0
         self.fault_at = fault_at
+        self.fault_hard = fault_hard
+        self.fault_fired = False
+        if fault_hard:
+            # a worker thread killed by a BaseException must not hang the run: execute it on a helper thread with a watchdog
+            import threading
+            box = []
+
+            def target():
+                try:
+                    box.append(self.run(output, fresh, workers, scheduler, max_errors, dry_run, fault_at, transform, fault_hard=False, _hard=True))
+                except BaseException as e:      # noqa
+                    box.append(("fault", e))
+            th = threading.Thread(target=target, daemon=True)
+            hook, threading.excepthook = threading.excepthook, (lambda a: None)
+            try:
+                th.start()
+                th.join(HANG_TIMEOUT)
+            finally:
+                threading.excepthook = hook
+            return box[0] if box else ("hang", None)
+        self.fault_hard = _hard
         try:
             res = self.uj.run(self.plan, registry=self.reg, output=None if output is None else self.nodes[output],
                               fresh_time=self.fresh_dt(fresh), max_workers=workers, scheduler=scheduler,
@@ -285,7 +322,7 @@ class World:
             return ("ok", res)
         except self.uj.CallError as e:
             return ("callerror", e)
-        except InjectedFault as e:
+        except (InjectedFault, InjectedHardFault) as e:
             return ("fault", e)
         except Exception as e:
             # e.g. AttributeError from CallError(Literal) when a registered literal's store operation fails (noted in DESIGN.md)
@@ -330,6 +367,8 @@ class Campaign:
         self.uj = core.use_repo()
         self.cases = []     # (terms, observed dict, description)
         self.found = []     # (prop, key, what, replay)
+        import transform_corr
+        self.tc = transform_corr.TransformCampaign(ctx)    # the physical plan of every observed run vs Cache/Transform.v
 
     def add(self, prop, key, what, replay):
         self.found.append((prop, key, what, replay))
@@ -338,6 +377,8 @@ class Campaign:
         """A complete real run from the current store state, compared with the model and checked by the monitors."""
         ctx = self.ctx
         sigma = w.sigma()
+        if not w.writer_of:
+            self.tc.observe(w, output, fresh, desc)
         stale_real = w.real_stale(fresh)
         res = w.run(output, fresh, workers=workers, scheduler=scheduler)
         log = list(w.log)
@@ -419,6 +460,7 @@ class Campaign:
 
     def eval_model(self, name="Cache/Logical.v vs _get_stale_nodes / uberjob.run (stale set, executed calls, reads, writes, output, contents)"):
         ctx = self.ctx
+        self.tc.eval_model()
         if not self.cases:
             return
         terms = ["exec_cache %s %s %s %s %s" % t for t, *_ in self.cases]
@@ -479,6 +521,16 @@ TARGETED = {
     # registered literal and literal with predecessors
     "literals": [("source", [], [], False), ("call", [0], [], True), ("lit", [], [1], False),
                  ("lit", [], [], True), ("call", [3, 1], [2], True)],
+    # a stale dependent source with two rebuilt stored dependencies and two physical dependents (read-back + a node that
+    # merely depends on it): its Barrier literal is a 2x2 hub
+    "barrier-2x2": [("source", [], [], False), ("call", [0], [], True), ("call", [0], [], True), ("source", [], [1, 2], False),
+                    ("call", [3], [], True), ("call", [0], [3], False), ("call", [5, 4], [], True)],
+    # ... and with one dependent only (2x1)
+    "barrier-2x1": [("source", [], [], False), ("call", [0], [], True), ("call", [0], [], True), ("source", [], [1, 2], False),
+                    ("call", [3], [], True)],
+    # fresh stored node newer than its stored consumer's consumer: times must flow through fresh stored nodes
+    "stored-chain": [("source", [], [], False), ("call", [0], [], True), ("call", [1], [], False), ("call", [2], [], True),
+                     ("call", [3], [], True)],
     # two sources, fan-in, chain of unstored calls
     "fan-in": [("source", [], [], False), ("source", [], [], False), ("call", [0], [], False), ("call", [2, 1], [], False),
                ("call", [3], [], True), ("call", [4, 0], [], False), ("call", [5], [], True)],
@@ -518,7 +570,10 @@ def targeted_histories(ctx, camp):
                 elif op == "fresh":
                     camp.observe_run(w, out, random_fresh(w, rng), [name, step, op])
                 elif op == "cut":
-                    cut_and_repair(ctx, camp, w, out, [name, step, op])
+                    try:
+                        cut_and_repair(ctx, camp, w, out, [name, step, op])
+                    except WorldLost:
+                        break
                 ctx.case(("targeted", name, variant, step, tuple(str(x) for x in w.sigma())))
                 ctx.count("targeted_world", name)
 
@@ -573,7 +628,10 @@ def history_campaign(ctx, camp, n_worlds, steps, props_cut=True):
                     w.tainted = True
                 camp.observe_run(w, output, random_fresh(w, rng), hist + [op])
             elif op == "cut" and props_cut:
-                cut_and_repair(ctx, camp, w, output, hist + [op])
+                try:
+                    cut_and_repair(ctx, camp, w, output, hist + [op])
+                except WorldLost:
+                    break
             hist.append(op)
             ctx.case((wi, step, op, tuple(str(x) for x in w.sigma())), nontrivial=w.n >= 2,
                      sample={"meta": w.meta, "history": hist} if wi == 1 and step == steps - 1 else None)
@@ -595,10 +653,20 @@ def cut_and_repair(ctx, camp, w, output, desc):
     if total == 0:
         return
     k = rng.randrange(1, total + 1)
+    hard = rng.random() < 0.3
     res = w.run(output, None, workers=rng.choice([1, 3]), scheduler=rng.choice([None, "random"]), fault_at=k,
-                max_errors=rng.choice([0, 0, 1, None]))
+                max_errors=rng.choice([0, 0, 1, None]), fault_hard=hard)
     cutlog = [(a, b) for a, b, _ in w.log]
     sigma1 = w.sigma()
+    ctx.count("cut_exception", "BaseException" if hard else "Exception")
+    if res[0] == "hang":
+        camp.add("C08", "cut-run-hangs", "the run was cut at operation %d by a raised BaseException subclass and uberjob.run did not return within %d s"
+                 % (k, HANG_TIMEOUT), {"meta": w.meta, "sigma_before": sigma0, "cut_at": k, "of": total, "log": cutlog[:200], "desc": desc})
+        raise WorldLost()
+    if w.fault_fired and res[0] == "ok":
+        camp.add("C08", "cut-run-reports-success", "the run was cut at operation %d by a raised %s but uberjob.run returned normally"
+                 % (k, "BaseException subclass" if hard else "Exception"),
+                 {"meta": w.meta, "sigma_before": sigma0, "cut_at": k, "of": total, "log": cutlog[:200], "desc": desc})
     replay = {"meta": w.meta, "sigma_before": sigma0, "cut_at": k, "of": total, "log": cutlog[:200], "sigma_after_cut": sigma1, "desc": desc}
     ctx.count("cut_kind", cutlog[k - 1][0] if k - 1 < len(cutlog) else "?")
     # every stored value that a later run would treat as up to date equals its from-scratch value
